@@ -22,7 +22,7 @@ Print Assumptions C19_inv_init.
 (* next(), from every state an iterator can be in: never a fault (no read outside the tag), terminates,
    keeps the invariant; a yielded section has entry size 40 or 64 and its entry and the string-table
    entry lie inside the tag; an entry size other than 40/64 is a controlled panic *)
-Theorem C19_next : forall p m tag_off L fuel it, elf_inv m tag_off L it -> (N.to_nat (el_rem it) < fuel)%nat ->
+Theorem C19_next : forall p m tag_off L fuel it, elf_inv m tag_off L it -> (N.to_nat (elf_steps it) < fuel)%nat ->
   match elf_next fuel p m it with
   | Val (Some s, it') => section_ok m tag_off L s /\ elf_inv m tag_off L it' /\ el_rem it' < el_rem it /\
                          (es_es s = 40 \/ es_es s = 64) /\ es_es s = el_es it /\
